@@ -42,7 +42,7 @@ for p in props:
         "engine": "govc",
         "technique": technique(pid),
         "level_claimed": {"category": level, "text": text, "design_ref": "DESIGN.md §5 " + pid},
-        "level_note": c.get('note', '') + " Trusted base: govc itself and the SMT solvers; assumed contracts on the standard library (fmt.Errorf/errors.Is wrap chains, math, strconv, encoding/json.Number, time, regexp, context); wfAST getter postconditions of package ast marked trusted; calls through function values are pure functions of their arguments; integers are mathematical with explicit wrap (bit-vectors in 'mode bv' functions); float64->int64 as on amd64."})
+        "level_note": c.get('note', '') + " Trusted base: govc itself and the SMT solvers; assumed contracts on the standard library (fmt.Errorf/errors.Is wrap chains, math, strconv, encoding/json.Number, time, regexp, context); no function of the module is marked trusted: single-node wfAST facts are object invariants established by the constructors (obligations objinv:*), the facts relating a node to its operands (connective operands are predicates that end their chain, subscripts are subscript nodes) are named assumes clauses listed in the evidence; calls through function values are pure functions of their arguments; integers are mathematical with explicit wrap (bit-vectors in 'mode bv' functions); float64->int64 as on amd64."})
 na = [{"property_id": p['id'], "reason": na_reason[p['id']]} for p in props if p['id'] not in claimed]
 hs = subprocess.run("git -C /repo log --format=%H --grep='^verif:'", shell=True, capture_output=True, text=True).stdout.split()[::-1]
 m = {"version": 1,
